@@ -22,6 +22,7 @@ RULE = (
     "array and the base memory around every view bit-identical to its snapshot. Non-trivial: a non-contiguous "
     "layout for at least one array, or a non-cubic shape, or the minimal admissible shape. Distinct = digest of case. "
     "Part registry_complete (enumeration): every name in spne.__all__ starting with gen_ has at least one entry."
+    " Layouts also: pooled (slices of one allocation) and interleaved; element-wise kernels also in place through a view object; scalar arguments incl. exact 0/+-1; one long axis; part generation_order_fresh_process: kernels of one operator family generated in a drawn order in a new process."
 )
 ASSUMPTIONS = [
     "inputs finite with magnitudes within [2^-8, 2^8]; penalty factors >= 0 and indicators in [0,1] for Brinkmann kernels",
